@@ -6,18 +6,24 @@ from ..harness.streams import StreamGen
 from . import pairing_common as pc
 
 TRANSLATORS = [tr_handlers.translate, tr_decoders.translate]
-MODEL_TARGETS = ['theories/FiltersTracesCases.vo']
+MODEL_TARGETS = ['theories/FiltersTracesCases.vo', 'theories/FiltersPipelineCases.vo']
 PROOF_TARGETS = ['props/C13.vo']
 PROP_FILE = 'props/C13.v'
 ASSUMPTIONS = [
     'traces() is modelled as: event selection (kevents with helper classes) -> pairing machine (C04 model) -> post-filters; '
     'decoders are abstract at this level (identical text is argued from what the regenerated rows read, c13_closed, and '
     'compared differentially)',
-    'the process filter is a post-filter evaluated on the tables at that moment; checked differentially against the process '
-    'column of the unfiltered listing',
+    'the whole request (selection, pairing, table writes of the trace-class / sampler decoders as modelled for C14, thread / '
+    'process / helper post-filters) is theories/FiltersPipeline*.v; c13_all_filters assumes that the table-writing decoders '
+    'belong to the trace and sampler classes: checked on the bundled code table (c13_writer_classes) and on the source '
+    '(every handler that touches parser.threads_pids / pids_names is registered under one of the seven names of table_writers)',
     'the commutation claim for subclass filters is for BSD subclasses (as the property states): composite decoders of other '
     'classes read nested records of sibling subclasses',
 ]
+HEADER2 = ('From Coq Require Import NArith List.\nFrom Kd Require Import theories.Base theories.Harness '
+           'theories.FiltersPipelineCases.\nImport ListNotations.\nOpen Scope N_scope.')
+KINDS = {'TRACE_DATA_NEWTHREAD': 1, 'TRACE_DATA_EXEC': 2, 'TRACE_STRING_NEWTHREAD': 3, 'TRACE_STRING_EXEC': 4,
+         'TRACE_DATA_THREAD_TERMINATE_PID': 5, 'PERF_THD_Data': 6, 'PERF_Event': 7}
 HEADER = ('From Coq Require Import NArith List.\nFrom Kd Require Import theories.Base theories.Harness '
           'theories.FiltersTracesCases.\nImport ListNotations.\nOpen Scope N_scope.')
 
@@ -81,22 +87,26 @@ def run(ctx, model_ok):
         reqs.append({'file': f, 'cfg': {'color': False, 'filter_class_tuple': cfg['filter_class'],
                                         'filter_subclass': cfg['filter_subclass']}, 'calls': ['traces']})
         reqs.append({'file': f, 'cfg': dict(base, filter_process=proc, **cfg), 'calls': ['traces', 'traces']})
+        # request 5: the object first serves OTHER settings, then the caller sets these ones
+        other = gen_cfg(rng, evs, threads)
+        reqs.append({'file': f, 'cfg': dict(base, filter_process=rng.choice([None, proc]), **other),
+                     'calls': ['traces', {'set': dict(cfg, filter_process=None)}, 'traces']})
         info.append((threads, evs, cfg, proc))
     out = vlib.run_impl('run_api.py', {'cases': reqs}, timeout=3000)['results']
     ctx.evaluations = len(reqs)
     ctx.rule = ('semantic streams (syscalls with nested lookups, exec / new-thread name pairs, terminate-pid, sampler thread data) x '
                 'filter configurations (none, [BSD], one BSD subclass, [TRACE], [FSYSTEM, BSD], BSD subclass + trace-string '
                 'subclass, other class + lookup subclass; tid none/present/absent/undeclared-in-the-map; process by pid / name incl. pids declared only by new-thread or sampler records of OTHER threads; all filters combined) x request sequences '
-                'traces, callstacks, traces, kevents, traces on ONE object, and the class list given as a tuple; non-trivial = '
+                'traces, callstacks, traces, kevents, traces on ONE object, a request after the object served OTHER settings, and the class list given as a tuple; non-trivial = '
                 'distinct (stream, configuration) whose filtered output is a non-empty proper subsequence of the unfiltered one')
-    cases = []
+    cases, pcases, pinfo = [], [], []
     for i, (threads, evs, cfg, proc) in enumerate(info):
-        r0, r1, r2, r3, r4 = out[5 * i:5 * i + 5]
+        r0, r1, r2, r3, r4, r5 = out[6 * i:6 * i + 6]
         unf = r0[0]['items']
         flt = r1[0]['items']
         inp = {'threads': [[t, p, nm.decode()] for t, p, nm in threads], 'events': evs, 'cfg': cfg}
-        if any(c['err'] for c in r0 + r1 + r2 + r3 + r4):
-            ctx.failing.append({'input': inp, 'expected': 'no exception', 'actual': [c['err'] for c in r0 + r1 + r2 + r3 + r4],
+        if any(c['err'] for c in r0 + r1 + r2 + r3 + r4 + r5):
+            ctx.failing.append({'input': inp, 'expected': 'no exception', 'actual': [c['err'] for c in r0 + r1 + r2 + r3 + r4 + r5],
                                 'why': 'a request raised'})
             continue
 
@@ -140,7 +150,7 @@ def run(ctx, model_ok):
                                     'why': "the caller's filter settings were changed by a request"})
                 break
         if r3[0]['cfg_after']['filter_class_type'] != 'tuple' or [key(it) for it in r3[0]['items']] != \
-                [key(it) for it in out[5 * i + 1][0]['items'] if cfg['filter_tid'] is None] and cfg['filter_tid'] is None:
+                [key(it) for it in out[6 * i + 1][0]['items'] if cfg['filter_tid'] is None] and cfg['filter_tid'] is None:
             ctx.failing.append({'input': inp, 'expected': 'a tuple of classes works like a list and stays a tuple',
                                 'actual': r3[0]['cfg_after'], 'why': 'class filter given as a tuple is not honoured / was replaced'})
         # process filter = post-filter: the unfiltered listing (no tid filter) restricted by its own process column
@@ -154,6 +164,17 @@ def run(ctx, model_ok):
         ft = 'None' if cfg['filter_tid'] is None else f'(Some {cN(cfg["filter_tid"])})'
         cases.append(f'({cl}, ({ft}, {clist([cN(x) for x in cfg["filter_class"]])}, {clist([cN(x) for x in cfg["filter_subclass"]])}), '
                      f'{ins}, {obs})')
+        # model correspondence for the whole request (all filters, table evolution)
+        kd = clist([f'({cN(c)}, {KINDS[uni.codes[c]]})' for c in classes if uni.codes.get(c) in KINDS])
+        tmc = clist([f'({cN(t)}, {cN(p)}, {vlib.cbytes(nm)})' for t, p, nm in threads])
+        insw = clist([f'({cN(t)}, {cN(c)}, {q}, {clist([cN(w) for w in ws])})' for t, c, q, ws in evs])
+        for rr, fp in ((r4, proc), (r2, proc)):
+            cfgp = cfg if rr is r4 else {'filter_tid': None, 'filter_class': [], 'filter_subclass': []}
+            ftp = 'None' if cfgp['filter_tid'] is None else f'(Some {cN(cfgp["filter_tid"])})'
+            obsp = clist([f'({cN(it[1] - 1)}, {cN(it[2] - 1)})' for it in rr[0]['items']])
+            pcases.append(f'({cl}, {kd}, ({ftp}, Some {vlib.cstr_bytes(fp)}, {clist([cN(x) for x in cfgp["filter_class"]])}, '
+                          f'{clist([cN(x) for x in cfgp["filter_subclass"]])}), {tmc}, {insw}, {obsp})')
+            pinfo.append((inp, fp, cfgp))
         # process filter oracle: the traces of the unfiltered run whose process column matches
         keep = [it for it, ln in zip(unf, r0[1]['items']) if proc_matches(it, ln)]
         got = r2[0]['items']
@@ -161,6 +182,12 @@ def run(ctx, model_ok):
             ctx.failing.append({'input': dict(inp, filter_process=proc), 'expected': [[it[1], it[4]] for it in keep],
                                 'actual': [[it[1], it[4]] for it in got],
                                 'why': 'the process filter does not select exactly the traces whose process column matches'})
+        # no residue of earlier, different settings
+        if r5[2]['items'] != flt:
+            ctx.failing.append({'input': dict(inp, earlier_settings=other), 'expected': [[it[1], it[4]] for it in flt],
+                                'actual': [[it[1], it[4]] for it in r5[2]['items']],
+                                'why': 'a request answered after the object served OTHER settings differs from the same request '
+                                       'on a fresh object'})
         # all filters at once: exactly the traces of the unfiltered run that satisfy every one of them
         got = r4[0]['items']
         if [key(it) for it in got] != [key(it) for it in exp_all] or r4[1]['items'] != got:
@@ -172,6 +199,15 @@ def run(ctx, model_ok):
                                            'unfiltered listing)'})
         if exp_all and len(exp_all) < len(exp):
             ctx.nontrivial.add(repr((evs, cfg, proc)))
+    # static tie of c13_all_filters' hypothesis to the source: which registered decoders touch the tables
+    tw = table_touching_names()
+    if tw is not None:
+        outside = sorted((hex(c), n) for c, n in uni.codes.items() if n in tw and (c >> 24) not in (7, 37))
+        if outside or not set(KINDS) - {'TRACE_DATA_EXEC'} <= set(tw):
+            ctx.broken.append(('translation', {'what': 'decoders that read or write parser.threads_pids / pids_names must be of '
+                                                       'the trace or sampler class (hypothesis of c13_all_filters)',
+                                               'outside_those_classes': outside, 'found': sorted(tw)}))
+    ctx.extra['table_touching_decoders'] = sorted(tw) if tw is not None else 'source not analysable'
     ctx.samples = [{'cfg': info[0][2], 'events': info[0][1][:6], 'unfiltered': [[it[1], it[4]] for it in out[0][0]['items']][:6],
                     'filtered': [[it[1], it[4]] for it in out[1][0]['items']][:6]}]
     if model_ok:
@@ -181,6 +217,49 @@ def run(ctx, model_ok):
             ctx.broken.append(('correspondence', f'case files failed to evaluate: {errors[0]}'))
         for b in bad[:6]:
             ctx.broken.append(('correspondence', {'case': cases[b][:900]}))
+        bad2, errors2 = vlib.run_model_cases('C13p', HEADER2, 'ppcase', 'ppcheck', pcases, per_file=20)
+        ctx.traces_validated += len(pcases) - len(bad2)
+        if errors2:
+            ctx.broken.append(('correspondence', f'pipeline case files failed to evaluate: {errors2[0]}'))
+        for b in bad2[:6]:
+            ctx.broken.append(('correspondence', {'pipeline_case': {'input': pinfo[b][0], 'filter_process': pinfo[b][1], 'cfg': pinfo[b][2]}}))
+
+
+def table_touching_names():
+    """names under which the handlers that touch parser.threads_pids / parser.pids_names are registered (from the source)"""
+    import ast
+    import os
+    try:
+        names = set()
+        d = '/repo/pykdebugparser/trace_handlers'
+        for fn in sorted(os.listdir(d)):
+            if not fn.endswith('.py'):
+                continue
+            tree = ast.parse(open(os.path.join(d, fn)).read())
+            touching, calls = set(), {}
+            for node in tree.body:
+                if isinstance(node, ast.FunctionDef):
+                    calls[node.name] = {n.id for n in ast.walk(node) if isinstance(n, ast.Name)}
+                    for sub in ast.walk(node):
+                        if isinstance(sub, ast.Attribute) and sub.attr in ('threads_pids', 'pids_names'):
+                            touching.add(node.name)
+            changed = True
+            while changed:                                   # functions that call a toucher of the same module
+                changed = False
+                for f, cs in calls.items():
+                    if f not in touching and cs & touching:
+                        touching.add(f)
+                        changed = True
+            for node in tree.body:
+                if isinstance(node, ast.Assign) and any(isinstance(t, ast.Name) and t.id == 'handlers' for t in node.targets) \
+                        and isinstance(node.value, ast.Dict):
+                    for k, v in zip(node.value.keys, node.value.values):
+                        fns = {n.id for n in ast.walk(v) if isinstance(n, ast.Name)}
+                        if fns & touching and isinstance(k, ast.Constant):
+                            names.add(k.value)
+        return names
+    except Exception:
+        return None
 
 
 class _Dummy(dict):
